@@ -59,7 +59,7 @@ func genC14(t *rapid.T) any {
 		c.Items = []C14Item{{Q: "once", Fn: rapid.SampledFrom([]string{"vf_tag", "vf_tag2"}).Draw(t, "g.fn"), Tag: "n0", Arg: rapid.SampledFrom([]string{"5", "'k'", "2.5"}).Draw(t, "g.const"), Alias: "o0"}}
 		return c
 	}
-	n := rapid.IntRange(1, 6).Draw(t, "nrows")
+	n := genRowCount(t, 1, 6, "nrows") // now and then 13-40 rows: dozens of qualified calls in flight at once
 	for r := 0; r < n; r++ {
 		c.Rows = append(c.Rows, map[string]any{
 			"a": rapid.SampledFrom([]float64{1, 2, 3, 4, 7, -1}).Draw(t, fmt.Sprintf("r%d.a", r)),
